@@ -51,7 +51,13 @@ def generate(seed, tier):
                                   'federated'])
         if kind == 'federated' and any(e['kind'] == 'federated' for e in econs):
             kind = 'closed'          # region codes of the federated family are fixed: at most one per model
-        econs.append({'kind': kind, 'seed': core.run_seed(seed, 'embed', 'x', i), 'code': code})
+        e = {'kind': kind, 'seed': core.run_seed(seed, 'embed', 'x', i), 'code': code}
+        if kind in ('closed', 'closed_fin', 'capitalists') and S['swarm'].random() < 0.4:
+            # codes are labels: this economy calls its government 'HH' and its households 'GOV' (or similar), so
+            # that the same code names different kinds of sector in different economies of the model
+            e['names'] = S['swarm'].choice([{'GOV': 'HH', 'HH': 'GOV'}, {'GOV': 'BUS', 'BUS': 'GOV'}, {'HH': 'TF', 'TF': 'HH'},
+                                            {'GOV': 'HH', 'HH': 'PS'}])
+        econs.append(e)
     return {'kind': 'ECON', 'twin': 'embed', 'family': 'embed', 'seed': seed, 'tight': tight, 'T': T,
             'economies': econs, 'external': S['swarm'].choice([None, None, 'first', 'last'])}
 
@@ -87,6 +93,10 @@ def simplify(case):
                 c = core.deep_copy(case)
                 c['economies'][i]['kind'] = 'closed'
                 yield c
+        if e.get('names'):
+            c = core.deep_copy(case)
+            del c['economies'][i]['names']
+            yield c
     if case['T'] > 2:
         c = core.deep_copy(case)
         c['T'] = 2
@@ -230,7 +240,8 @@ def economy_ops(e, T, tight, standalone):
                         'value': econgen.path(S['params'], T, 0.0, 0.06, digits=3)})
         return ops
     cmap = {c: code for c in ('CA', 'US', 'C1', 'X')}
-    sub, info = econgen.gen_program(e['seed'], family=e['kind'], tight=tight, T=T, cmap=cmap, with_main=False)
+    sub, info = econgen.gen_program(e['seed'], family=e['kind'], tight=tight, T=T, cmap=cmap, with_main=False,
+                                    names=e.get('names'))
     if e['kind'] == 'federated':
         # the federation's currency is stated explicitly (pairwise different currencies is the premise);
         # its member regions take the default currency, as the library's own REG2 builder does
